@@ -9,9 +9,14 @@ import builtins
 import io
 import os
 import shutil
+import tempfile
 from pathlib import Path
 
-NAMES = ["a", "b", "c", "d", "e", "f"]
+# Sibling names that are string prefixes / extensions of each other: an implementation that compares
+# path strings instead of path components (startswith, os.path.commonprefix) confuses them, the model
+# (component lists) does not.
+NAMES = ["a", "ab", "a.b", "data", "data.csv", "data2", "logs", "logs_old"]
+CLUSTERS = [[0, 1, 2], [3, 4, 5], [6, 7]]
 MODES = {"MR": "r", "MW": "w", "MA": "a", "MX": "x", "MRP": "r+"}
 OS_FLAGS = {
     "MW": os.O_WRONLY | os.O_CREAT | os.O_TRUNC,
@@ -155,20 +160,34 @@ def perform(root: str, op):
         raise AssertionError(kind)
 
 
-def run_case(root: str, init, ops):
-    """Execute ops inside a real FilesystemIsolation over a fresh sandbox at `root`.
+def run_case(root: str, init, ops, tmp_sibling: bool = False):
+    """Execute ops inside a real FilesystemIsolation over a fresh sandbox.
 
-    Returns dict(before, steps=[(op, res, created, tree)], after, skipped, foreign_created)."""
+    The isolation's private temp dir is created inside the caller's scratch directory (next to `root`).
+    With `tmp_sibling` the sandbox root is `<private temp dir>_sb`: every sandbox path then has the temp
+    root as a plain string prefix without lying below it.
+
+    Returns dict(before, steps=[(op, res, created, tree)], after, skipped, stray)."""
     import pynguin.configuration as config
     from pynguin.utils.fs_isolation import FilesystemIsolation
 
-    assert root.startswith("/var/tmp/") and not os.getcwd().startswith(root)
+    assert root.startswith("/var/tmp/") and not os.getcwd().startswith(os.path.dirname(root))
     config.configuration.filesystem_isolation = True
+    tdir = os.path.join(os.path.dirname(root), "tmp")
+    os.makedirs(tdir, exist_ok=True)
+    old_tempdir = tempfile.tempdir
+    tempfile.tempdir = tdir
+    try:
+        iso = FilesystemIsolation()
+    finally:
+        tempfile.tempdir = old_tempdir
+    if tmp_sibling:
+        assert os.path.dirname(iso._tmp.name) == tdir, iso._tmp.name
+        root = iso._tmp.name + "_sb"
     shutil.rmtree(root, ignore_errors=True)
     build(root, init)
     before = tree(root)
     steps, skipped, stray = [], 0, []
-    iso = FilesystemIsolation()
     with iso:
         for op in ops:
             if excluded(root, op):
@@ -197,14 +216,30 @@ def run_case(root: str, init, ops):
 
 # ------------------------------------------------------------------------------------------------
 # generators (all randomness from the rng handed in)
+def _cluster_mate(rng, c):
+    cl = next(k for k in CLUSTERS if c in k)
+    return rng.choice([x for x in cl if x != c])
+
+
+def _root_names(rng, n):
+    """n distinct names; after the first, every further one is with probability 1/2 a string
+    prefix/extension of one already chosen."""
+    chosen = [rng.randrange(len(NAMES))]
+    while len(chosen) < n:
+        c = _cluster_mate(rng, rng.choice(chosen)) if rng.random() < 0.5 else rng.randrange(len(NAMES))
+        if c not in chosen:
+            chosen.append(c)
+    return chosen
+
+
 def gen_init(rng):
     init = []
-    for c in rng.sample(range(len(NAMES)), rng.choice([1, 2, 3, 4])):
+    for c in _root_names(rng, rng.choice([1, 2, 3, 4])):
         if rng.random() < 0.45:
             init.append(((c,), rng.choice(["", "x", "hello", "pre"])))
         else:
             init.append(((c,), "D"))
-            for c2 in rng.sample(range(len(NAMES)), rng.choice([0, 0, 1, 2])):
+            for c2 in (_root_names(rng, k2) if (k2 := rng.choice([0, 0, 1, 2])) else []):
                 if rng.random() < 0.6:
                     init.append(((c, c2), rng.choice(["", "one", "two"])))
                 else:
@@ -218,6 +253,7 @@ class _Guess:
     """What the generator believes to exist (only steers the choice of arguments)."""
 
     def __init__(self, init):
+        self.all = [p for p, _ in init]
         self.files = [p for p, n in init if n != "D"]
         self.dirs = [()] + [p for p, n in init if n == "D"]
         self.new = []
@@ -232,6 +268,10 @@ class _Guess:
         d = rng.choice(self.dirs + [p for p in self.new])
         if rng.random() < 0.12:
             d = d + (rng.randrange(len(NAMES)),)
+        sibs = [p[-1] for p in self.all + self.new if len(p) == len(d) + 1 and p[:-1] == d]
+        if sibs and rng.random() < 0.45:
+            # a name that is a string prefix / extension of a (believed) sibling
+            return (d + (_cluster_mate(rng, rng.choice(sibs)),))[:4]
         return (d + (rng.randrange(len(NAMES)),))[:4]
 
 
